@@ -197,11 +197,13 @@ pub struct TimerOpts {
     /// Delay lattice in ns.
     pub lattice: Vec<u64>,
     pub same_time_bias: bool,
+    /// Directed same-deadline same-origin bursts with cancellations by position.
+    pub bursts: bool,
 }
 
 impl Default for TimerOpts {
     fn default() -> Self {
-        TimerOpts { max_nodes: 3, max_cmds: 20, periodic: true, cancel: true, max_inv: 600, lattice: vec![1, 2, 3, 1000, 2000, 500_000_000, 1_000_000_000], same_time_bias: true }
+        TimerOpts { max_nodes: 3, max_cmds: 20, periodic: true, cancel: true, max_inv: 600, lattice: vec![1, 2, 3, 1000, 2000, 500_000_000, 1_000_000_000], same_time_bias: true, bursts: true }
     }
 }
 
@@ -330,7 +332,90 @@ fn gen_timer_once(seed: u64, o: &TimerOpts) -> Spec {
     for _ in 0..rng.range(1, 4) {
         spec.cmds.push(Cmd::Step);
     }
+    if o.bursts && rng.chance(2, 3) {
+        add_bursts(&mut spec, &mut rng, o, n, &lat);
+    }
     spec
+}
+
+/// Directed additions to a timer bench (C07, C09): *bursts* of 3-8 actions
+/// with one deadline and one origin, scheduled through every API path
+/// (model events, `EventSource` actions; plain, keyed, auto-keyed, periodic),
+/// of which a random subset is cancelled (by position in the burst) before
+/// the step in which they are due; the same for a model scheduling on itself
+/// (cancellation at an earlier simulation time, rules R1-R3 are respected:
+/// self kinds and slot-touching actions only). Driver-origin and model-origin
+/// bursts may share their deadline, so that several origins have groups of
+/// same-time actions in one step.
+fn add_bursts(spec: &mut Spec, rng: &mut Rng, o: &TimerOpts, n: usize, lat: &[u64]) {
+    spec.drv_slots = 8;
+    let d = *rng.pick(lat) * rng.range(1, 3);
+    // Model-origin burst, placed in `init` (time = start): same deadline `d`.
+    if rng.chance(1, 2) {
+        let node = rng.usize(n);
+        spec.nodes[node].key_slots = 6;
+        let k = rng.range(3, 6) as usize;
+        let mut acts = Vec::new();
+        let mut keyed_slots = Vec::new();
+        for j in 0..k {
+            let keyed = rng.chance(1, 2);
+            let periodic = o.periodic && rng.chance(1, 4);
+            let slot = if keyed { Some(j as u8) } else { None };
+            if keyed {
+                keyed_slots.push(j as u8);
+            }
+            acts.push(Action::Sched { delay: d, abs: None, kind: 2 + rng.below(2) as u8, slot, period: if periodic { Some(*rng.pick(lat) * rng.range(1, 2)) } else { None }, auto: keyed && rng.chance(1, 4) });
+        }
+        if o.cancel {
+            for sl in keyed_slots {
+                if rng.chance(1, 2) {
+                    acts.push(if rng.chance(1, 2) { Action::Cancel { slot: sl } } else { Action::DropAuto { slot: sl } });
+                }
+            }
+        }
+        // Slots used by the burst must not be disturbed by earlier init actions.
+        spec.nodes[node].init = acts;
+    }
+    // Driver-origin burst at the beginning of the command list (time = start).
+    let mut burst = Vec::new();
+    let k = rng.range(3, 8) as usize;
+    let target = rng.usize(n);
+    let mut keyed_slots = Vec::new();
+    for j in 0..k {
+        let kind = rng.below(2) as u8;
+        let keyed = rng.chance(3, 5) && keyed_slots.len() < 8;
+        let periodic = o.periodic && rng.chance(1, 4);
+        let period = if periodic { Some(*rng.pick(lat) * rng.range(1, 2)) } else { None };
+        let slot = if keyed { Some(keyed_slots.len() as u8) } else { None };
+        if keyed {
+            keyed_slots.push((keyed_slots.len() as u8, false));
+        }
+        // The event source of the timer family is connected to one node; model
+        // events go to `target` (mostly) or to another node.
+        if rng.chance(1, 2) {
+            burst.push(Cmd::SchedSource { src: 0, delay: d, kind, slot, period });
+        } else {
+            let auto = keyed && rng.chance(1, 4);
+            if auto {
+                keyed_slots.last_mut().unwrap().1 = true;
+            }
+            burst.push(Cmd::Sched { node: if rng.chance(3, 4) { target } else { rng.usize(n) }, delay: d, abs: None, kind, slot, period, auto });
+        }
+        let _ = j;
+    }
+    if o.cancel {
+        for (sl, auto) in keyed_slots {
+            if rng.chance(1, 2) {
+                burst.push(if auto { Cmd::DropAuto { slot: sl } } else { Cmd::Cancel { slot: sl } });
+            }
+        }
+    }
+    burst.push(Cmd::Step);
+    // The rest of the command list follows; its own keyed requests may reuse
+    // the slots (the previous key is then simply dropped, which never cancels).
+    let rest = std::mem::take(&mut spec.cmds);
+    spec.cmds = burst;
+    spec.cmds.extend(rest);
 }
 
 // ------------------------------------------------------------------ deadlock family
